@@ -34,8 +34,9 @@ const (
 	// F15: daemon overhead is computed against the NodePool template; a custom label key that only a pod introduces on the
 	// claim (allowed for NotIn / DoesNotExist, later narrowed) ends up as a node label and lets further daemonsets match
 	kfDaemonLabel = "daemon-overhead-ignores-labels-introduced-by-pods"
-	// F16: FinalizeScheduling pins a claim that holds reserved offerings to capacity-type=reserved and its reservation ids,
-	// but keeps the instance types that have no such offering among the launch options
+	// F16: FinalizeScheduling pins a claim that holds reserved offerings to capacity-type=reserved and its reservation ids
+	// AFTER packing: instance types without such an offering stay among the launch options, and the pods were fitted
+	// against any compatible offering group, not against the reserved offering's allocatable
 	kfReservedOptions = "reserved-claim-keeps-options-without-reserved-offering"
 )
 
@@ -136,7 +137,7 @@ func maskKey(p sk.PodDump, k string) sk.PodDump {
 type masked struct {
 	pods    []sk.PodDump
 	daemons []sk.PodDump
-	options []sk.ITDump
+	reqs    sk.Reqs
 	key     string // first finding whose shape is present ("" = nothing masked)
 }
 
@@ -147,7 +148,7 @@ func (m *masked) hit(k string) {
 }
 
 func maskClaim(cd sk.ClaimDump, daemons []sk.PodDump) masked {
-	m := masked{options: cd.Options}
+	m := masked{reqs: cd.Reqs}
 	// F16 shape: the claim is pinned to reserved capacity
 	var rids map[string]bool
 	pinned := false
@@ -163,24 +164,14 @@ func maskClaim(cd sk.ClaimDump, daemons []sk.PodDump) masked {
 		}
 	}
 	if pinned && rids != nil {
-		var keep []sk.ITDump
-		for _, o := range cd.Options {
-			has := false
-			for _, f := range o.Offers {
-				for _, r := range f.Reqs {
-					if f.Available && r.Key == cloudprovider.ReservationIDLabel && !r.Compl && len(r.Vals) == 1 && rids[r.Vals[0]] {
-						has = true
-					}
-				}
-			}
-			if has {
-				keep = append(keep, o)
+		// core: the claim as it was packed, i.e. without the pin FinalizeScheduling adds afterwards
+		m.reqs = nil
+		for _, r := range cd.Reqs {
+			if r.Key != v1.CapacityTypeLabelKey && r.Key != cloudprovider.ReservationIDLabel {
+				m.reqs = append(m.reqs, r)
 			}
 		}
-		if len(keep) < len(cd.Options) && len(keep) > 0 {
-			m.options = keep
-			m.hit(kfReservedOptions)
-		}
+		m.hit(kfReservedOptions)
 	}
 	empty, defined, onClaim := map[string]bool{}, map[string]bool{}, map[string]bool{}
 	for _, r := range cd.Reqs {
@@ -305,24 +296,20 @@ func countVolumes(c *kit.Ctx, where string, pods []sk.PodDump) {
 
 func emitClaim(c *kit.Ctx, d *sk.Dump, cd sk.ClaimDump, cfg sk.RunCfg) {
 	countVolumes(c, "claim", cd.Pods)
-	term := func(opts []sk.ITDump, pods, daemons []sk.PodDump) string {
-		return fmt.Sprintf("(BNew %s %s %s %s %s %s)", gWK(d.WellKnown), gReqs(cd.Reqs), kit.GListOf(cd.Taints, gTaint), kit.GListOf(opts, gOpt),
-			kit.GListOf(pods, gPod), kit.GListOf(daemons, gPod))
+	term := func(reqs sk.Reqs, pods, daemons []sk.PodDump) string {
+		return fmt.Sprintf("(BNew %s %s %s %s %s %s)", gWK(d.WellKnown), gReqs(reqs), kit.GListOf(cd.Taints, gTaint), kit.GListOf(cd.Options, gOpt),
+			kit.GListOf(pods, gVPod), kit.GListOf(daemons, gPod))
 	}
 	raw, _ := json.Marshal(cd)
 	m := maskClaim(cd, d.Daemons)
 	if m.key == "" {
-		c.AddCase(term(cd.Options, cd.Pods, d.Daemons), map[string]interface{}{"kind": "Solve/new-nodeclaim", "config": cfg, "claim": cd, "daemons": d.Daemons}, "bnew|"+string(raw))
+		c.AddCase(term(cd.Reqs, cd.Pods, d.Daemons), map[string]interface{}{"kind": "Solve/new-nodeclaim", "config": cfg, "claim": cd, "daemons": d.Daemons}, "bnew|"+string(raw))
 		return
 	}
 	c.Count("B.kf-shape." + m.key)
-	var optNames []string
-	for _, o := range m.options {
-		optNames = append(optNames, o.Name)
-	}
-	c.AddCase(term(m.options, m.pods, m.daemons), map[string]interface{}{"kind": "Solve/new-nodeclaim (core: finding-shaped parts masked)", "config": cfg, "claim": cd, "daemons": d.Daemons,
-		"masked_pods": m.pods, "masked_daemons": m.daemons, "masked_options": optNames}, "bnew-core|"+string(raw))
-	c.AddCase(term(cd.Options, cd.Pods, d.Daemons), map[string]interface{}{"kind": "Solve/new-nodeclaim", "config": cfg, "claim": cd, "daemons": d.Daemons, "kf_key": m.key}, "bnew|"+string(raw))
+	c.AddCase(term(m.reqs, m.pods, m.daemons), map[string]interface{}{"kind": "Solve/new-nodeclaim (core: finding-shaped parts masked)", "config": cfg, "claim": cd, "daemons": d.Daemons,
+		"masked_pods": m.pods, "masked_daemons": m.daemons, "masked_requirements": m.reqs}, "bnew-core|"+string(raw))
+	c.AddCase(term(cd.Reqs, cd.Pods, d.Daemons), map[string]interface{}{"kind": "Solve/new-nodeclaim", "config": cfg, "claim": cd, "daemons": d.Daemons, "kf_key": m.key}, "bnew|"+string(raw))
 }
 
 func emitExisting(c *kit.Ctx, ed sk.ExistingDump, cfg sk.RunCfg) {
@@ -331,7 +318,7 @@ func emitExisting(c *kit.Ctx, ed sk.ExistingDump, cfg sk.RunCfg) {
 		c.Count("B.vol.existing.node-with-attach-limits")
 	}
 	term := func(placed, daemons []sk.PodDump) string {
-		return fmt.Sprintf("(BEx %s %s %s %s %s %s %s)", gPairs(ed.Labels), kit.GListOf(ed.Taints, gTaint), gRL(ed.Alloc), gLimits(ed.VLimits), kit.GListOf(ed.Bound, gPod), kit.GListOf(placed, gPod), kit.GListOf(daemons, gPod))
+		return fmt.Sprintf("(BEx %s %s %s %s %s %s %s)", gPairs(ed.Labels), kit.GListOf(ed.Taints, gTaint), gRL(ed.Alloc), gLimits(ed.VLimits), kit.GListOf(ed.Bound, gVPod), kit.GListOf(placed, gVPod), kit.GListOf(daemons, gPod))
 	}
 	raw, _ := json.Marshal(ed)
 	m := maskExisting(ed)
